@@ -5,7 +5,7 @@
 set -e
 LAB="${1:-/tmp/lab}"
 mkdir -p "$LAB"
-rsync -a --delete --exclude /tmp --exclude /replays --exclude /repo-link /verif/ "$LAB/verif/"
+rsync -a --delete --exclude /tmp --exclude /replays --exclude /repo-link --exclude /seeded /verif/ "$LAB/verif/"   # results under $LAB/verif/seeded survive a re-sync; copy them to /verif/seeded when done
 if [ -d "$LAB/repo/.git" ]; then
   git -C "$LAB/repo" fetch -q /repo HEAD && git -C "$LAB/repo" checkout -q --detach FETCH_HEAD && git -C "$LAB/repo" checkout -q -- .
 else
